@@ -69,7 +69,10 @@ def elemBody (W : World) (f : Nat) (ctx : Ctx) (st : St) (tag : Str) (attrs : Li
     bindE (chainSelect (evalCondition W.P st.stack) (getAttr attrs (S "v-if")) rest) (fun ps =>
       match ps.1 with
       | .none => evalList W f ctx st (rest.drop ps.2)
-      | .member 0 => bindR (evalAsElement W f ctx st tag attrs kids) (fun res st1 => prepend res (evalList W f ctx st1 (rest.drop ps.2)))
+      | .member 0 =>
+        (match onceGate st attrs with
+         | none => evalList W f ctx st (rest.drop ps.2)
+         | some st' => bindR (evalAsElement W f ctx st' tag attrs kids) (fun res st1 => prepend res (evalList W f ctx st1 (rest.drop ps.2))))
       | .member (i + 1) =>
         match rest[i]? with
         | some (.elem t a k) =>
@@ -87,8 +90,8 @@ def elemBody (W : World) (f : Nat) (ctx : Ctx) (st : St) (tag : Str) (attrs : Li
 
 theorem evalList_elem (W : World) (f : Nat) (ctx : Ctx) (st : St) (tag : Str) (attrs : List Attr) (kids rest : List Node) :
     evalList W (f + 1) ctx st (.elem tag attrs kids :: rest) =
-      if (hasAttr attrs (S "v-once") && !hasAttr attrs (S "v-for")) && st.seen.contains (getAttr attrs (S "v-once-id")) then evalList W f ctx st rest
-      else elemBody W f ctx (if hasAttr attrs (S "v-once") && !hasAttr attrs (S "v-for") then { st with seen := st.seen ++ [getAttr attrs (S "v-once-id")] } else st)
+      if onceHereOf attrs && st.seen.contains (getAttr attrs (S "v-once-id")) then evalList W f ctx st rest
+      else elemBody W f ctx (if onceHereOf attrs then { st with seen := st.seen ++ [getAttr attrs (S "v-once-id")] } else st)
         tag attrs kids rest := by
   rw [evalList]
   rfl
@@ -107,7 +110,9 @@ theorem le_elemBody (W : World) (f : Nat) (ih : MonoAt W f) (ctx : Ctx) (st : St
           intro ps
           split
           · exact ih.list _ _ _
-          · exact le_bindR (ih.asElem _ _ _ _ _) (fun _ _ => le_prepend _ (ih.list _ _ _))
+          · split
+            · exact ih.list _ _ _
+            · exact le_bindR (ih.asElem _ _ _ _ _) (fun _ _ => le_prepend _ (ih.list _ _ _))
           · split
             · split
               · exact ih.list _ _ _
